@@ -134,6 +134,26 @@ func didGenesisRules(p *Prog, r *Report, m *didModel, clause string) {
 			c, ok := in.(*ssa.Call)
 			return ok && c.Call.StaticCallee() != nil && m.setters[resolveBound(c.Call.StaticCallee())]
 		}, "import stores every genesis entry, with no conditional skip")
+	// export walks the whole DID family: the list accessor on the export path iterates the prefix store with no bounds of its
+	// own (an end bound built from "the last character of the alphabet" excludes every identifier that starts with it —
+	// iterator ends are exclusive — and with them their tombstones)
+	{
+		reach := p.ReachFrom([]*ssa.Function{exp}, func(f *ssa.Function) bool { return InModule(f) && !p.IsGenerated(f) })
+		nIt := 0
+		for _, so := range m.ops {
+			if (so.Op != "Iterator" && so.Op != "ReverseIterator") || !reach.Has(so.Fn) {
+				continue
+			}
+			ok, what, applies := wholeFamilyIteration(p, so)
+			if !applies {
+				continue
+			}
+			nIt++
+			r.Check(ok, kp("LOOP", FuncName(so.Fn)+"#whole-family"), "the DID list accessor on the export path iterates its whole family: no bounds of its own inside the prefix store", p.Pos(so.Instr.Pos()),
+				what, fmt.Sprintf("%s iterates the DID store with %s: entries outside these bounds are never listed, so they (documents and tombstones alike) are missing from the export and a DID that was deactivated can be created again after an import", FuncName(so.Fn), what))
+		}
+		r.Floor("did-export-iterations", nIt, 1)
+	}
 	// import stores the value unchanged: SetDIDDocument(ctx, key, *value) with key/value the map iteration's
 	o := NewOrigin(p, imp)
 	for _, cs := range callSites(imp) {
@@ -539,4 +559,43 @@ func checkDIDIdentifierLanguage(p *Prog, r *Report, kp func(string, string) stri
 	}
 	r.Check(eq, kp("CONST", "x/did/types.ValidateDID#language"), "the identifiers the registry admits are exactly did:panacea:<32-44 base58> (the store key is the identifier string itself)", p.FnPos(fn),
 		fmt.Sprintf("%v", spec), fmt.Sprintf("ValidateDID admits %v, the method says %v; e.g. %q is judged differently: an identifier outside the method's language can be registered, deactivated and — under another spelling, or after an export whose JSON form rewrites its bytes — registered again", spec, want, w))
+}
+
+
+// wholeFamilyIteration: an iteration of a (prefix) store that has no bounds of its own — KVStorePrefixIterator with an empty prefix
+// or Iterator(nil, nil) (empty slices count as nil). applies is false for calls that are not iterator constructors (pagination
+// helpers walk the store they are handed).
+func wholeFamilyIteration(p *Prog, so StoreOp) (ok bool, what string, applies bool) {
+	emptyBytes := func(t *Term) bool {
+		if t == nil {
+			return false
+		}
+		switch {
+		case t.Op == "const" && t.Name == "nil":
+			return true
+		case t.Op == "slicelit" && len(t.Args) == 0:
+			return true
+		case t.Op == "makeslice":
+			return len(t.Args) > 0 && t.Args[0].Op == "const" && t.Args[0].Name == "0"
+		}
+		return false
+	}
+	cc := so.Instr.Common()
+	o := NewOrigin(p, so.Fn)
+	name := calleeName(cc)
+	switch {
+	case strings.HasSuffix(name, "types.KVStorePrefixIterator") || strings.HasSuffix(name, "types.KVStoreReversePrefixIterator"):
+		t := o.Of(cc.Args[1])
+		return emptyBytes(t), "prefix " + t.String(), true
+	case strings.HasSuffix(name, ".Iterator") || strings.HasSuffix(name, ".ReverseIterator"):
+		args := cc.Args
+		if !cc.IsInvoke() && len(args) == 3 {
+			args = args[1:]
+		}
+		if len(args) == 2 {
+			s0, s1 := o.Of(args[0]), o.Of(args[1])
+			return emptyBytes(s0) && emptyBytes(s1), "bounds [" + s0.String() + ", " + s1.String() + ")", true
+		}
+	}
+	return false, "", false
 }
